@@ -17,7 +17,7 @@ RULE = ('every (grammar, shell) pair is compiled through the real pipeline (cgpr
 ASSUMPTIONS = ['reference semantics cgv/refsem.py written from README/property statements',
                'description attachment is only judged for the documented shapes (determinate class)',
                'built-in PATH/DIRECTORY command text is abstracted to a BUILTIN symbol (C11 owns the text)']
-MIN_EVALS = {'quick': 2000, 'thorough': 20000}
+MIN_EVALS = {'quick': 20000, 'thorough': 200000}
 EXHAUSTIVE = {}
 
 NSHARDS = 64
@@ -25,10 +25,10 @@ NSHARDS = 64
 
 def make_jobs(tier, seed):
     jobs = []
-    n = 4 if tier == 'quick' else 5
+    n = 5 if tier == 'quick' else 6
     for s in range(NSHARDS):
         jobs.append(('exh', n, s))
-    nrand = 1600 if tier == 'quick' else 16000
+    nrand = 3200 if tier == 'quick' else 32000
     per = nrand // NSHARDS
     for s in range(NSHARDS):
         jobs.append(('rand', seed * 1000003 + s, per))
